@@ -113,7 +113,23 @@ def _impl(tier, seed, search):
         try: Te = b.trexp(Su, th_e)
         except Exception: Te = None
         if Te is not None: se('trexp(S,theta)', Te, dict(S=Su, theta=th_e))
+        # … a twist with unit translational part and a non-zero, non-unit rotational part (vector and matrix form, 3-D and 2-D): rejected, or a member
+        wfrac = inputs.unit_axis(g) * 10.0 ** g.uniform(-3, -0.1); vunit = inputs.unit_axis(g)
+        for nm_, f_ in (('trexp(S[v unit, w fraction],theta)', lambda: b.trexp(np.r_[vunit, wfrac], th_e)), ('trexp(skewa S[v unit, w fraction],theta)', lambda: b.trexp(b.skewa(np.r_[vunit, wfrac]), th_e))):
+            try: Te = f_()
+            except Exception: Te = None
+            if Te is not None: se(nm_, Te, dict(S=np.r_[vunit, wfrac], theta=th_e))
+        wf2 = float(g.choice([-1, 1])) * 10.0 ** g.uniform(-3, -0.1); vu2 = vunit[:2] / np.linalg.norm(vunit[:2]) if np.linalg.norm(vunit[:2]) > 0 else np.r_[1.0, 0.0]
+        try: Te = b.trexp2(np.r_[vu2, wf2], th_e)
+        except Exception: Te = None
+        if Te is not None: se('trexp2(S[v unit, w fraction],theta)', Te, dict(S=np.r_[vu2, wf2], theta=th_e))
         so('trexp2-so2', lambda: b.trexp2(th), dict(w=th)); se('trexp2-se2', lambda: b.trexp2(np.r_[t2, th]), dict(S=np.r_[t2, th]))
+        # re-normalising a slightly invalid planar matrix through the classes gives a member (element-wise noise, not only scale drift)
+        for cls2_, M2_ in ((SO2, inputs.so2(g)), (SE2, inputs.se2(g))):
+            Mn_ = M2_.copy(); Mn_[:2, :2] = Mn_[:2, :2] + g.normal(size=(2, 2)) * 10.0 ** g.uniform(-12, -6.5)
+            valid_obj(f'{cls2_.__name__}.norm()', lambda: cls2_(Mn_, check=False).norm(), dict(M=Mn_))
+        R3n_ = inputs.so3(g) + g.normal(size=(3, 3)) * 10.0 ** g.uniform(-12, -6.5)
+        valid_obj('SO3.norm()', lambda: SO3(R3n_, check=False).norm(), dict(M=R3n_))
         # quaternion constructors
         q = inputs.unitq(g)
         so('q2r', lambda: b.q2r(q), dict(q=q))
